@@ -179,6 +179,14 @@ prop("C08", "Parse is total: a tree or an error, never a panic, hang or silent a
     ("control_line_is_nonempty_prefix", "next_ctl_spec", "the line cutter returns a non-empty prefix of the text at an offset that does not move backwards"),
     ("every_step_progresses", "process_progress", "processCtl: a statement or nested block advances the offset and restores the counters, a closing brace consumes one byte, an error is an error"),
     ("nested_blocks_restore_counters", "parse_nested_ok", "a nested block that ends without error has reached its target"),
+    ("accepted_is_balanced", "accepted_is_balanced_computed", "FULL STATEMENT: for every byte string, if Parse returns no error then the text's control lines (cut and classified exactly as the parser does) are balanced: the depth never goes below zero, an else only occurs inside an open block, the depth is zero at the end"),
+    ("unbalanced_is_rejected", "unbalanced_is_rejected", "its contrapositive, as the property words it: a missing closing brace, a surplus closing brace, an else with no open block -- anywhere, under any nesting -- is rejected"),
+    ("accepted_is_balanced_rel", "accepted_is_balanced", "the same for the relational reading of the text (no fuel)"),
+    ("every_text_has_its_lines", "Toks_total", "which exists for every text"),
+    ("and_only_one", "Toks_det", "and is unique"),
+    ("nested_block_is_body_then_closer", "parse_block", "the induction behind it: a nested block that parses without error is a balanced body followed by its closer"),
+    ("balanced_example", "ex_ok_tokens", "not vacuous: an if / else / nested loop text, its seven control lines, accepted"),
+    ("unbalanced_examples", "ex_unbalanced_tokens", "and three unbalanced texts"),
     ("surplus_closing_brace_rejected", "surplus_close_rejected", "a closing brace with no open block is rejected with ErrUnexpectedClose"),
     ("surplus_closing_brace_line", "surplus_close_line", "the line `}` at top level, regular expressions evaluated"),
     ("stray_else_rejected", "stray_else_line", "`} else {` with no open block is rejected"),
